@@ -33,7 +33,7 @@ MUTATING = {"update", "append", "add", "extend", "setdefault", "pop", "clear", "
 def run(ctx):
     repo = ctx.repo
     res = Result(PROP)
-    res.rules = ["E-TYPE", "E-REJECT", "E-DIR", "E-FOOT", "E-FIRST", "E-ALIAS", "E-LOOPALIAS", "E-SKIP", "E-IDKEEP", "Q-ORDER", "Q-FLAG", "Q-COPY"]
+    res.rules = ["E-TYPE", "E-REJECT", "E-DIR", "E-FOOT", "E-FIRST", "E-ALIAS", "E-LOOPALIAS", "E-SKIP", "E-IDKEEP", "R-INC", "R-EXC", "Q-ORDER", "Q-FLAG", "Q-COPY"]
     res.explanation = (
         "Narrow claim. Raise sites of the three class bodies are classified by their guard and the raised class is "
         "resolved; removals keyed by parameters are checked for a dominating membership test or a converting handler; "
@@ -387,6 +387,17 @@ def st_in(stmts, target):
 # ------------------------------------------------------------------------------------------ E-FOOT
 def check_foot(repo, eng, res):
     ci = repo.get_class("Hypergraph")
+    # "keeps every node degree and every edge size": the swap's paired updates are exactly balanced on every normal exit,
+    # also when the caller hands the same ID to two parameters (alias variants of the incidence walker, rules of C01)
+    swap = ci.methods.get("double_edge_swap")
+    if swap is not None:
+        from .incidence_rules import analyse_method, direct_writer_methods
+
+        direct, indirect = direct_writer_methods(repo, eng, "Hypergraph")
+        try:
+            analyse_method(repo, res, PROP, "Hypergraph", swap, False, set(direct) | set(indirect))
+        except AnalysisError as e:
+            res.refusals.append(str(e))
     for mname in ("double_edge_swap", "random_edge_shuffle"):
         m = ci.methods.get(mname)
         if m is None:
